@@ -1069,7 +1069,7 @@ pub fn t_order_vft(a: &[i64]) -> Val {
 
 // t_equiv: a description and a rewritten but equivalent description (C20).
 //   extern X0 (s0, al), X1 (s1, al);  type T { [vftable { v0; v1 }] f0: X0, <gap g>, f1: X1 }  enum E: i32 { A = e0, B, C }
-// a = [ps, s0, s1, al, g, e0, vft, r_addr0, r_gap, r_size, r_index, r_enum, r_order, r_addr1, base_mode, packed]
+// a = [ps, s0, s1, al, g, e0, vft, r_addr0, r_gap, r_size, r_index, r_enum, r_order, r_addr1, base_mode, packed (2 = packed with a leading u8 field)]
 //   r_addr0 : f0 gets the explicit address it already has          r_addr1: same for f1
 //   r_gap   : the gap is written as `_: unknown<g>` in the first description and as #[address] on f1 in the second
 //   r_size  : #[size(natural size)] added        r_index : #[index(1)] on v1      r_enum : `B = e0 + 1` written out
@@ -1078,7 +1078,9 @@ pub fn t_equiv(a: &[i64]) -> Val {
     let ps = a[0] as usize;
     let (s0, s1, al, g, e0) = (a[1] as usize, a[2] as usize, a[3], a[4] as usize, a[5] as isize);
     let vft = a[6] != 0;
-    let head = if vft { ps } else { 0 };
+    // a[15] == 2: packed, and a leading `pre: u8` shifts every later field by one byte (misaligned whenever al > 1)
+    let pre = a[15] == 2;
+    let head = (if vft { ps } else { 0 }).wrapping_add(pre as usize);
     let off0 = head;
     let base_mode = a[14] != 0;
     let off1 = if base_mode { head.wrapping_add(g) } else { head.wrapping_add(s0).wrapping_add(g) };
@@ -1091,11 +1093,17 @@ pub fn t_equiv(a: &[i64]) -> Val {
             let v1 = if on(10) { v1.with_attributes([A::integer_fn("index", 1)]) } else { v1 };
             stmts.push(TS::vftable([F::new((V::Public, "v0"), [Ar::ConstSelf]), v1]));
         }
+        if pre {
+            stmts.push(TS::field((V::Public, "pre"), T::ident("u8")));
+        }
         let f0 = TS::field((V::Public, "f0"), T::ident("X0"));
         stmts.push(if on(7) && !base_mode { f0.with_attributes([A::integer_fn("address", off0 as isize)]) } else { f0 });
         // a[14]: f1 is a #[base] field of a type with a vftable (and f0 is left out, so only the gap precedes the base)
         if base_mode {
             stmts.pop();
+            if pre {
+                stmts.push(TS::field((V::Public, "pre"), T::ident("u8")));
+            }
         }
         let mk_f1 = |with_addr: bool| -> TS {
             let mut at: Vec<A> = vec![];
